@@ -325,7 +325,26 @@ type typedPoolCase struct {
 }
 
 func genTypedPool(s core.Source) typedPoolCase {
-	c := typedPoolCase{Type: core.Pick(s, []string{"[]int", "map[string]int", "[][]int", "[]string", "map[int][]int"}, "type")}
+	c := typedPoolCase{Type: core.Pick(s, []string{"[]int", "map[string]int", "[][]int", "[]string", "map[int][]int", "map[int]int/large", "map[int]int/large"}, "type")}
+	if c.Type == "map[int]int/large" {
+		// maps with up to 70 keys (the collator sorts the keys of a map before it ranks): a base map, a copy,
+		// the base with one more key (first, middle or last in key order), the base with one value changed
+		n := s.Choose(71, "keys")
+		base := []int{}
+		for k := 0; k < n; k++ {
+			base = append(base, 2*k+1, int(core.Mix(uint64(k)+s.Bits("vseed")%1000)%5))
+		}
+		c.Codes = append(c.Codes, base, append([]int{}, base...))
+		extra := []int{0, 2 * (n / 2), 2*n + 2}[s.Choose(3, "where")]
+		c.Codes = append(c.Codes, append(append([]int{}, base...), extra, 1))
+		if n > 0 {
+			changed := append([]int{}, base...)
+			changed[2*s.Choose(n, "which")+1] += 7
+			c.Codes = append(c.Codes, changed)
+			c.Codes = append(c.Codes, append([]int{}, base[:2*(n-1)]...))
+		}
+		return c
+	}
 	n := 4 + s.Choose(4, "n")
 	for i := 0; i < n; i++ {
 		if i > 0 && s.Choose(3, "derive") == 0 {
@@ -457,6 +476,27 @@ func execTypedPool(prop string) func(typedPoolCase, core.Source) core.Result {
 				}
 			}
 			v, distinct = typedAxioms(prop, c.Type, vals, func(i, j int) int { return cmpIntSlices(c.Codes[i], c.Codes[j]) })
+		case "map[int]int/large":
+			// codes are (key, value) pairs; the maps are filled in a scrambled order
+			vals := make([]map[int]int, len(c.Codes))
+			flat := make([][]int, len(c.Codes))
+			for i, code := range c.Codes {
+				vals[i] = map[int]int{}
+				npairs := len(code) / 2
+				for j := 0; j < npairs; j++ {
+					k := (j*7 + i*3) % npairs
+					vals[i][code[2*k]] = code[2*k+1]
+				}
+				keys := []int{}
+				for k := range vals[i] {
+					keys = append(keys, k)
+				}
+				sort.Ints(keys)
+				for _, k := range keys {
+					flat[i] = append(flat[i], k, vals[i][k])
+				}
+			}
+			v, distinct = typedAxioms(prop, c.Type, vals, func(i, j int) int { return cmpIntSlices(flat[i], flat[j]) })
 		case "map[string]int":
 			vals := make([]map[string]int, len(c.Codes))
 			for i, code := range c.Codes {
